@@ -77,6 +77,11 @@ Theorem C17_trailer_date : forall f, DATEp.wf_date f ->
   DATE.parse_when (DATEp.render_when f) = Some (DATEp.unix_of f, DATEp.offset_of f).
 Proof. exact DATEp.parse_when_render. Qed.
 Print Assumptions C17_trailer_date.
+(* ... and a date whose day does not exist in its month ("00", "31 Apr", "29 Feb 2023", "32") is refused: with
+   C17_never_silently_shortened the whole changelog then is an error, not a shortened list *)
+Theorem C17_trailer_date_no_such_day : forall f, DATEp.wf_shape f -> DATEp.day_exists f = false ->
+  DATE.parse_when (DATEp.render_when f) = None.
+Proof. exact DATEp.parse_when_no_such_day. Qed.
 (* the changelog theorem with the library's own version and date readers in the place of the two parameters *)
 Theorem C17_parse_render_dated : forall es k,
   Forall (rentry_ok V3.version (BinNums.Z * BinNums.Z) V11.parse_u DATE.parse_when) es ->
@@ -89,3 +94,17 @@ Theorem C17_never_silently_shortened_dated : forall fuel ls es,
   (CL.headers ls <= List.length es)%nat.
 Proof. exact (C17_never_silently_shortened V3.version (BinNums.Z * BinNums.Z) V11.parse_u DATE.parse_when). Qed.
 Print Assumptions C17_parse_render_dated.
+
+(* entries may be separated by lines of white space - a blank, a tab, or the CR of a file with CR LF line ends (repair 1f7ffc5 of
+   the r13 finding: only lines that are exactly empty were skipped in front of a header, so a two-entry changelog with CR LF
+   line ends was refused): such a changelog parses to its two entries *)
+From Coq Require Import ZArith.
+Example C17_crlf_changelog_of_two_entries :
+  let cr := "013"%char in
+  let e (src ver : string) := s src ++ s " (" ++ s ver ++ s ") unstable; urgency=low" ++ [cr; nl; cr; nl] ++ s "  * x" ++ [cr; nl; cr; nl] ++
+                              s " -- A B <a@b.c>  Mon, 2 Jan 2006 15:04:05 -0700" ++ [cr; nl] in
+  match CL.parse V3.version (BinNums.Z * BinNums.Z) V11.parse_u DATE.parse_when (e "a"%string "1.0-1"%string ++ [cr; nl] ++ [sp; nl] ++ ["009"%char; nl] ++ e "b"%string "2:0.5"%string) with
+  | Some [x; y] => CL.e_source _ _ x = s "a" /\ CL.e_source _ _ y = s "b" /\ CL.e_when _ _ y = (1136239445, -25200)%Z
+  | _ => False
+  end.
+Proof. vm_compute. repeat split. Qed.
